@@ -22,6 +22,10 @@ pub struct Case {
     /// remove the declared cogeneration input (the documented error class): evaluation with the
     /// full set fails, so nothing but "no panic" is required of the stripped one
     pub drop_cogen_input: bool,
+    /// when present, the building and factors come from the DHW grammar: the DHW indicator (part of
+    /// what the program reports after simplifying the factors) reaches its inner branches
+    #[serde(default)]
+    pub dhw: Option<crate::dhw::DhwCase>,
 }
 
 impl Prop for C08 {
@@ -29,7 +33,7 @@ impl Prop for C08 {
     const ID: &'static str = "C08";
     fn rule() -> String {
         "cases = building() (output lines anywhere incl. first, auxiliaries as only electricity, cogeneration with and without declared input, nEPB uses in any carrier, surplus ambient/solar) x prepared factor sets (regulatory and user); \
-         oracle = energy_performance(c, f) vs energy_performance(c, f.strip(c)) under catch_unwind: no panic, Ok stays Ok, flat views equal within tolerance, strip only removes; \
+         oracle = energy_performance(c, f) vs energy_performance(c, f.strip(c)) under catch_unwind: no panic, Ok stays Ok, flat views equal within tolerance, the DHW indicator computed from either result is the same value or the same error, strip only removes; 25 % of the buildings come from the DHW grammar; \
          non-trivial = strip removed >= 1 factor and the building exports or cogenerates"
             .into()
     }
@@ -43,7 +47,10 @@ impl Prop for C08 {
         let mut p = params(tier);
         p.cogen_heavy = true;
         p.aux_non_epb = true;
-        (bf_case(p, 50), prop::bool::weighted(0.1)).prop_map(|(base, d)| Case { base, drop_cogen_input: d }).boxed()
+        p.with_needs = true;
+        (bf_case(p, 50), prop::bool::weighted(0.1), proptest::option::weighted(0.25, crate::dhw::dhw_case(12)))
+            .prop_map(|(base, d, dhw)| Case { base, drop_cogen_input: d, dhw })
+            .boxed()
     }
     fn describe(c: &Case) -> Value {
         let mut v = effective(c).describe();
@@ -96,6 +103,27 @@ impl Prop for C08 {
                 } else {
                     ctx.skip("ratio_den_noise");
                 }
+                // the DHW indicator that the program adds to the result after simplifying the factors
+                let strip_digits = |s: String| s.chars().filter(|c| !c.is_ascii_digit() && *c != '-').collect::<String>();
+                match (catch(|| cteepbd::cte::fraccion_renovable_acs_nrb(&a)), catch(|| cteepbd::cte::fraccion_renovable_acs_nrb(&b))) {
+                    (Ok(Ok(x)), Ok(Ok(y))) => {
+                        let dem = a.balance.needs.ACS.unwrap_or(0.0).abs() as f64;
+                        if (x.is_nan() && y.is_nan()) || dem < 1e-3 * sc.tot_energy {
+                            ctx.skip("dhw_den_noise");
+                        } else {
+                            let t = 4.0 * ratio_tol(tol(sc.tot_energy, sc.n), dem) + 1e-5;
+                            ensure!(((x - y).abs() as f64) <= t, "same_dhw_fraction", "DHW renewable fraction {} with the full set, {} with the stripped set", x, y);
+                            ctx.label("dhw_value");
+                        }
+                    }
+                    (Ok(Err(x)), Ok(Err(y))) => {
+                        ensure!(strip_digits(x.to_string()) == strip_digits(y.to_string()), "same_dhw_fraction", "DHW fraction error `{}` with the full set, `{}` with the stripped set", x, y);
+                        ctx.label("dhw_error");
+                    }
+                    (Ok(Ok(x)), Ok(Err(y))) => fail!("ok_becomes_err", "the DHW renewable fraction is {} with the full set and an error with the stripped one: {}", x, y),
+                    (Ok(Err(x)), Ok(Ok(y))) => fail!("same_dhw_fraction", "the DHW renewable fraction is an error with the full set (`{}`) and {} with the stripped one", x, y),
+                    (Err(p), _) | (_, Err(p)) => fail!("eval_panics", "fraccion_renovable_acs_nrb panicked: {}", p),
+                }
                 let exports = a.balance_cr.values().any(|b| b.exp.an != 0.0);
                 let cogen = e.b.has_cogen_prod();
                 if removed >= 1 && (exports || cogen) {
@@ -122,11 +150,15 @@ impl Prop for C08 {
 }
 
 fn effective(c: &Case) -> BFCase {
-    let mut e = c.base.clone();
+    let start = match &c.dhw {
+        Some(d) => BFCase { b: d.building(), f: d.factors(), k: d.k, area: c.base.area, lm: d.lm },
+        None => c.base.clone(),
+    };
+    let mut e = start.clone();
     if c.drop_cogen_input {
         e.b.lines.retain(|l| !matches!(l.kind, Kind::Used { srv: Srv::COGEN, .. }));
         if e.b.lines.is_empty() {
-            e = c.base.clone();
+            e = start;
         }
     }
     e
